@@ -258,7 +258,8 @@ class Repo:
             canon.canon_modules(self.modules)
             # canonicalisation can expose further named constants (getattr(self, 'NAME') -> self.NAME)
             if not os.environ.get('SA_NO_EXPAND'):
-                expand.resubstitute_constants(self.modules)
+                if expand.resubstitute_constants(self.modules):
+                    canon.canon_modules(self.modules)
         for m in self.modules.values():
             set_parents(m.tree)
         for m in self.modules.values():
